@@ -167,7 +167,8 @@ def exercise(case):
                 tracefs.arm_fault(url, nm, op=fo.get("op", "cat"), nth=fo.get("nth", 1), consume=fo.get("consume", 0.5), exc=TimeoutError)
             t0 = time.time()
             try:
-                tree = ceos_alos2.open_alos2(url, backend_options=dict(opts))
+                with checklib.time_limit(case.get("time_limit", 600)):   # "terminates promptly": an open that never ends is an outcome too
+                    tree = ceos_alos2.open_alos2(url, backend_options=dict(opts))
                 run["open"] = "ok"
             except BaseException as e:  # noqa: B902 -- the outcome is data here
                 tree = None
@@ -183,6 +184,13 @@ def exercise(case):
                 import pickle as _pickle
 
                 tree = {"pickle": lambda t: _pickle.loads(_pickle.dumps(t)), "deepcopy": _copy.deepcopy, "tree.copy": lambda t: t.copy(deep=True)}[case["via_copy"]](tree)
+            if tree is not None and case.get("close_first"):
+                # the caller keeps the variables and closes the tree (tree.close(), or the end of a `with open_alos2(...)` block) before it
+                # loads from them: closing holds nothing the loads need, so nothing changes
+                held = {im["group"]: tree[f"imagery/{im['group']}/data"] for im in b.images}
+                tracefs.take_log()
+                tree.close()
+                run["close_events"] = [e for e in tracefs.take_log() if e.get("e") in ("read", "cat", "fopen")]
             for i, im in enumerate(b.images):
                 rec = {"group": im["group"], "name": im["name"], "n": im["n"], "p": im["p"], "prefix": im["prefix"],
                        "bps": im["bps"], "loads": []}
@@ -190,7 +198,7 @@ def exercise(case):
                 if tree is None:
                     continue
                 try:
-                    da = tree[f"imagery/{im['group']}/data"]
+                    da = held[im["group"]] if case.get("close_first") else tree[f"imagery/{im['group']}/data"]
                     rec["shape"] = list(da.shape)
                     rec["dtype"] = str(da.dtype)
                     rec["enc"] = {k: (dict(v) if isinstance(v, dict) else v) for k, v in da.encoding.items()}
